@@ -14,9 +14,7 @@ import (
 	"testing"
 
 	"github.com/PapaCharlie/go-restli/v2/d2"
-	"github.com/PapaCharlie/go-restli/v2/fnv1a"
 	"github.com/PapaCharlie/go-restli/v2/restli"
-	"github.com/PapaCharlie/go-restli/v2/restlicodec"
 	"pgregory.net/rapid"
 
 	"verif/HARNESS/dyn"
@@ -51,7 +49,7 @@ func checkConcurrent(rec *stats.Recorder, c concCase) string {
 		}
 		return s
 	})
-	shared := (&dyn.ErrM{Status: ip(409), Code: sp("SHARED")}).ToGo() // no message: the library must default it on a copy
+	shared := sharedErrM().ToGo() // no message: the library must default it on a copy
 	type res struct {
 		got *dyn.Outcome
 		err error
@@ -98,7 +96,7 @@ func checkConcurrent(rec *stats.Recorder, c concCase) string {
 			if r.err == nil || !errors.As(r.err, &rerr) {
 				return fmt.Sprintf("call %d: the shared error response did not arrive as a Rest.li error: %v", i, r.err)
 			}
-			if rerr.Status == nil || *rerr.Status != 409 || rerr.Code == nil || *rerr.Code != "SHARED" {
+			if rerr.Status == nil || *rerr.Status != 409 || !sharedMarkIntact(rerr) {
 				return fmt.Sprintf("call %d: the shared error response arrived altered: %s", i, hx.J(dyn.ErrFromGo(&rerr.ErrorResponse)))
 			}
 			continue
@@ -222,56 +220,3 @@ func TestC17D2(t *testing.T) {
 type discard struct{}
 
 func (discard) Write(p []byte) (int, error) { return len(p), nil }
-
-// ---------------------------------------------------------------------------------------------
-// custom typeref registry
-
-type celsius int32
-
-func init() {
-	restlicodec.RegisterCustomTyperef(
-		func(c celsius) (int32, error) { return int32(c), nil },
-		func(i int32) (celsius, error) { return celsius(i), nil },
-		func(c celsius) fnv1a.Hash { return fnv1a.HashInt32(int32(c)) },
-		func(a, b celsius) bool { return a == b },
-	)
-}
-
-func TestC17Registry(t *testing.T) {
-	rec := stats.For("C17")
-	if hx.Replaying() {
-		t.Skip()
-	}
-	rapid.Check(t, func(rt *rapid.T) {
-		n := rapid.IntRange(2, 32).Draw(rt, "n")
-		vals := rapid.SliceOfN(rapid.Int32(), n, n).Draw(rt, "vals")
-		rec.Case("registry")
-		rec.NonTrivial("registry", fmt.Sprint(vals), func() any { return vals })
-		var wg sync.WaitGroup
-		bad := make(chan string, n)
-		for _, v := range vals {
-			wg.Add(1)
-			go func(v int32) {
-				defer wg.Done()
-				w := restlicodec.NewCompactJsonWriter()
-				if err := restlicodec.MarshalRestLi(celsius(v), w); err != nil {
-					bad <- err.Error()
-					return
-				}
-				doc := w.Finalize()
-				r, _ := restlicodec.NewJsonReader([]byte(doc))
-				back, err := restlicodec.UnmarshalRestLi[celsius](r)
-				if err != nil || back != celsius(v) || !restlicodec.CustomTyperefEquals[celsius]()(back, celsius(v)) {
-					bad <- fmt.Sprintf("custom typeref %d came back as %d (%v) through document %s", v, back, err, doc)
-				}
-			}(v)
-		}
-		wg.Wait()
-		select {
-		case m := <-bad:
-			rec.Violation("registry", m, vals)
-			rt.Fatalf("property violated (details in the replay file)")
-		default:
-		}
-	})
-}
